@@ -73,7 +73,11 @@ def run(ctx):
             agg["verbatim"] = False
             notes["verbatim"] = "field '%s' is %s, not the parameter nor its default" % (f, show(val)[:80])
         spec_lit = eng.const_literal("common.SECURITY_METADATA_SPEC_VERSION")
-        via_constant = _reads_constant(sm.fi.node, "SECURITY_METADATA_SPEC_VERSION")
+        # (read by the builder itself or by a helper of its own module that it reaches)
+        from sa.callgraph import CallGraph
+
+        cone = CallGraph(eng.prog).cone([sm.fi.qualname])
+        via_constant = any(_reads_constant(eng.prog.funcs[q].node, "SECURITY_METADATA_SPEC_VERSION") for q in cone if eng.prog.funcs[q].mod.short == sm.fi.mod.short)
         if not (d["metadata_spec_version"] == G("const:common.SECURITY_METADATA_SPEC_VERSION") or (spec_lit is not None and d["metadata_spec_version"] == spec_lit and via_constant)):
             agg["spec-version"] = False
             notes["spec-version"] = "metadata_spec_version is %s" % show(d["metadata_spec_version"])[:60]
